@@ -42,6 +42,9 @@ pub struct FrontCase {
     /// the connection when the SYN arrives, 4 = the server does not know the client's password
     #[serde(default)]
     pub fault: u8,
+    /// everything the server sends (ServerSettings, SYNACK, refusals, echoes) arrives this late
+    #[serde(default)]
+    pub slow_link_ms: u16,
 }
 
 pub struct FrontFam;
@@ -159,16 +162,23 @@ impl Family for FrontFam {
             let reqs = (1..=32u16)
                 .map(|i| FrontReq { host: HostGen::Name((block * 32 + i).min(255), 0), port: Some(if i % 2 == 0 { 255 } else { 256 }), via: 0, delivery: (i % 3) as u8, cuts: vec![i * 1999, 65535 - i * 911], as_domain: false })
                 .collect();
-            v.push(FrontCase { reqs, fault: 0 });
+            v.push(FrontCase { reqs, fault: 0, slow_link_ms: 0 });
         }
         for fault in 1..=4u8 {
             let reqs = (0..4u8).map(|via| FrontReq { host: HostGen::Name(12, 0), port: Some(8080), via, delivery: 0, cuts: vec![], as_domain: false }).collect();
-            v.push(FrontCase { reqs, fault });
+            v.push(FrontCase { reqs, fault, slow_link_ms: 0 });
+        }
+        // a refusal that takes its time to arrive (first stream of a fresh session, then a reused one)
+        for via in 0..2u8 {
+            let reqs = (0..2).map(|_| FrontReq { host: HostGen::Name(12, 0), port: Some(8080), via, delivery: 0, cuts: vec![], as_domain: false }).collect();
+            v.push(FrontCase { reqs, fault: 1, slow_link_ms: 700 });
         }
         v
     }
     fn strategy(&self, _tier: Tier) -> BoxedStrategy<FrontCase> {
-        (proptest::collection::vec(req_strategy(), 1..8), prop_oneof![5 => Just(0u8), 1 => Just(1u8), 1 => Just(2u8), 1 => Just(3u8), 1 => Just(4u8)]).prop_map(|(reqs, fault)| FrontCase { reqs, fault }).boxed()
+        let slow = (proptest::collection::vec(req_strategy(), 1..3), prop_oneof![Just(0u8), Just(1u8), Just(2u8)], prop_oneof![Just(350u16), Just(700)]).prop_map(|(reqs, fault, slow_link_ms)| FrontCase { reqs, fault, slow_link_ms });
+        let plain = (proptest::collection::vec(req_strategy(), 1..8), prop_oneof![5 => Just(0u8), 1 => Just(1u8), 1 => Just(2u8), 1 => Just(3u8), 1 => Just(4u8)]).prop_map(|(reqs, fault)| FrontCase { reqs, fault, slow_link_ms: 0 });
+        prop_oneof![12 => plain, 1 => slow].boxed()
     }
     fn case_budget_s(&self) -> u64 {
         180
@@ -189,6 +199,7 @@ impl Family for FrontFam {
                     _ => None,
                 },
                 close_on_syn: case.fault == 3,
+                reply_delay_ms: case.slow_link_ms as u64,
                 ..Default::default()
             };
             let srv = RefServer::start(if case.fault == 4 { "some other password" } else { PASSWORD }, beh).await?;
@@ -309,6 +320,7 @@ impl Family for FrontFam {
             out.class_if(r.delivery == 1, "byte-at-a-time");
         }
         out.class_if(case.fault != 0, "fault-in-the-anytls-leg");
+        out.class_if(case.slow_link_ms > 0, "slow-link-to-the-server");
         Ok(out)
     }
 }
